@@ -1266,6 +1266,10 @@ fn units(args: &Args) -> Vec<Unit> {
                     if big && !thorough && n > 2 {
                         continue;
                     }
+                    // read_exact family: the second style (trailing bytes, empty file) on lists <= 2
+                    if fam == 5 && style == 1 && n > 2 {
+                        continue;
+                    }
                     // per-extension states: thorough = all 7 (6 without "undecodable"); quick = the
                     // 4 (3) classes with the I/O kind chosen per extension (rotated by the seed)
                     let vectors: Vec<Vec<u8>> = if thorough {
